@@ -302,6 +302,10 @@ def w2(e: Engine, rep: Report):
             _w2_sequence_shape(e, rep, ctx, where, sep_set, marker,
                                accepts_tail):
         writes = None
+    if writes is not None and len(writes) < 2 and sep_set is not None and \
+            len(sep_set) == 1 and _w2_flag_shape(
+                e, rep, ctx, where, sep_set, marker, accepts_tail):
+        writes = None
     if writes is not None and (len(writes) < 2 or sep_set is None or
                                len(sep_set) != 1):
         rep.error('anchor vanished: composed reply lines in send_reply '
@@ -470,6 +474,181 @@ def _w2_sequence_shape(e, rep, ctx, where, sep_set, marker, accepts_tail):
                 rep.check(val is not None and len(val) == 1 and
                           val[0] in sep_set[0], 'W2', where,
                           '%s separator %r is one the parser accepts'
+                          % (which, val),
+                          'send_reply puts %r between code and text, which '
+                          'reply_line_pattern does not accept there: the '
+                          'library cannot parse its own reply' % (val,),
+                          loc=loc, reason='member of the separator class of '
+                          'reply_line_pattern')
+            rep.evaluations += 1
+            rep.check(term is not None and accepts_tail(term) is True, 'W2',
+                      where, 'line terminator %r is one the parser accepts'
+                      % (term,),
+                      'send_reply ends a reply line with %r, which the tail '
+                      'of reply_line_pattern does not match' % (term,),
+                      loc=loc, reason='matches the terminator of '
+                      'reply_line_pattern')
+            rep.evaluations += 1
+            rep.check(cont == marker, 'W2', where,
+                      'non-final lines carry the continuation marker',
+                      'a non-final line is written with %r but the parser '
+                      'continues a reply only after %r' % (cont, marker),
+                      loc=loc, reason='separator == %r' % marker)
+            rep.evaluations += 1
+            rep.check(last != marker, 'W2', where,
+                      'the final line does not carry the continuation '
+                      'marker', 'the last line of a reply is written with '
+                      'the continuation marker %r: the parser waits for a '
+                      'line that never comes' % marker, loc=loc,
+                      reason='separator != %r' % marker)
+            return True
+    return False
+
+
+def _w2_flag_shape(e, rep, ctx, where, sep_set, marker, accepts_tail):
+    """send_reply spelled with one composition and a last-line flag:
+        separator = LAST if is_last else CONT
+        ... code + separator + line + TERM ...
+    where the flag is `i == len(lines) - 1` for the enumerated position i
+    (in send_reply itself or handed to a module-level helper it calls).
+    True when read and judged."""
+    mod = ctx.func.module
+    top = ctx.func.node
+    fns = [top]
+    for x in walk_own(top):
+        if isinstance(x, ast.Call) and isinstance(x.func, ast.Name):
+            for st in mod.tree.body:
+                if isinstance(st, ast.FunctionDef) and st.name == x.func.id \
+                        and st not in fns:
+                    fns.append(st)
+
+    def once(fn, name):
+        ds = [a.value for a in ast.walk(fn) if isinstance(a, ast.Assign)
+              and any(isinstance(t, ast.Name) and t.id == name
+                      for t in a.targets)]
+        st = [y for y in ast.walk(fn) if isinstance(y, ast.Name) and
+              y.id == name and isinstance(y.ctx, (ast.Store, ast.Del))]
+        return ds[0] if len(ds) == 1 and len(st) == 1 else None
+
+    def meaning(x):
+        """'last' / 'notlast' for a test of the enumerated position against
+        the last position of the same sequence, evaluated in send_reply"""
+        if isinstance(x, ast.Name):
+            v = once(top, x.id)
+            return meaning(v) if v is not None else None
+        if isinstance(x, ast.UnaryOp) and isinstance(x.op, ast.Not):
+            m = meaning(x.operand)
+            return {'last': 'notlast', 'notlast': 'last'}.get(m)
+        if not (isinstance(x, ast.Compare) and len(x.ops) == 1):
+            return None
+        a, b, op = x.left, x.comparators[0], x.ops[0]
+
+        def last_of(y):
+            if isinstance(y, ast.Name):
+                y = once(top, y.id)
+            if isinstance(y, ast.BinOp) and isinstance(y.op, ast.Sub) and \
+                    isinstance(y.right, ast.Constant) and \
+                    y.right.value == 1 and isinstance(y.left, ast.Call) and \
+                    isinstance(y.left.func, ast.Name) and \
+                    y.left.func.id == 'len' and len(y.left.args) == 1:
+                return ast.unparse(y.left.args[0])
+            return None
+
+        def index_of(y):
+            if not isinstance(y, ast.Name):
+                return None
+            for c in ast.walk(top):
+                tg = it = None
+                if isinstance(c, ast.comprehension) or isinstance(c, ast.For):
+                    tg, it = c.target, c.iter
+                if isinstance(tg, ast.Tuple) and len(tg.elts) == 2 and \
+                        isinstance(tg.elts[0], ast.Name) and \
+                        tg.elts[0].id == y.id and isinstance(it, ast.Call) \
+                        and isinstance(it.func, ast.Name) and \
+                        it.func.id == 'enumerate' and len(it.args) == 1 and \
+                        not it.keywords:
+                    return ast.unparse(it.args[0])
+            return None
+        if isinstance(op, (ast.Eq, ast.NotEq)) and last_of(a) and \
+                index_of(b):
+            a, b = b, a
+        seq_i, seq_l = index_of(a), last_of(b)
+        if seq_i is None or seq_i != seq_l:
+            return None
+        if isinstance(op, ast.Eq):
+            return 'last'
+        if isinstance(op, (ast.NotEq, ast.Lt)):
+            return 'notlast'
+        return None
+
+    def const(x):
+        return x.value if isinstance(x, ast.Constant) and \
+            isinstance(x.value, bytes) else None
+    for fn in fns:
+        for x in ast.walk(fn):
+            parts = []
+            if isinstance(x, ast.Call) and \
+                    isinstance(x.func, ast.Attribute) and \
+                    x.func.attr == 'join' and x.args and \
+                    isinstance(x.args[0], (ast.Tuple, ast.List)):
+                parts = list(x.args[0].elts)
+            elif isinstance(x, ast.BinOp) and isinstance(x.op, ast.Add):
+                y = x
+                while isinstance(y, ast.BinOp) and isinstance(y.op, ast.Add):
+                    parts.insert(0, y.right)
+                    y = y.left
+                parts.insert(0, y)
+            if len(parts) < 4:
+                continue
+            sep_e = parts[1]
+            if isinstance(sep_e, ast.Name):
+                sep_e = once(fn, sep_e.id)
+            if not (isinstance(sep_e, ast.IfExp) and
+                    const(sep_e.body) is not None and
+                    const(sep_e.orelse) is not None):
+                continue
+            test = sep_e.test
+            if fn is not top:
+                # the flag is a parameter of the helper: what send_reply
+                # hands it
+                neg = False
+                if isinstance(test, ast.UnaryOp) and \
+                        isinstance(test.op, ast.Not):
+                    neg, test = True, test.operand
+                params = [a.arg for a in fn.args.args]
+                if not (isinstance(test, ast.Name) and test.id in params and
+                        once(fn, test.id) is None and not any(
+                            isinstance(y, ast.Name) and y.id == test.id and
+                            isinstance(y.ctx, ast.Store)
+                            for y in ast.walk(fn))):
+                    continue
+                calls = [c for c in ast.walk(top) if isinstance(c, ast.Call)
+                         and isinstance(c.func, ast.Name) and
+                         c.func.id == fn.name]
+                if len(calls) != 1:
+                    continue
+                c = calls[0]
+                k = params.index(test.id)
+                arg = c.args[k] if k < len(c.args) and not any(
+                    isinstance(a, ast.Starred) for a in c.args) else None
+                for kw in c.keywords:
+                    if kw.arg == test.id:
+                        arg = kw.value
+                m = meaning(arg) if arg is not None else None
+                if neg:
+                    m = {'last': 'notlast', 'notlast': 'last'}.get(m)
+            else:
+                m = meaning(test)
+            if m is None:
+                continue
+            last, cont = (const(sep_e.body), const(sep_e.orelse)) \
+                if m == 'last' else (const(sep_e.orelse), const(sep_e.body))
+            term = const(parts[-1])
+            loc = '%s:%d' % (mod.relpath, x.lineno)
+            for which, val in (('continuation', cont), ('final', last)):
+                rep.evaluations += 1
+                rep.check(len(val) == 1 and val[0] in sep_set[0], 'W2',
+                          where, '%s separator %r is one the parser accepts'
                           % (which, val),
                           'send_reply puts %r between code and text, which '
                           'reply_line_pattern does not accept there: the '
